@@ -264,6 +264,9 @@ fn gen(tier: &str, seed: u64, out: &mut dyn FnMut(String)) {
     out("trim i2,0".into()); out("trim 1,4:0,1,2,0".into()); out("trim 1,1,1:0".into());
     // ---- robustness streams, part 2: hidden state, huge sizes, exact lengths and values, aliasing, long lists and high ranks
     gen_part2(thorough, &mut rng, out);
+    // ---- robustness streams, part 3: giant sizes, element layout (in exec), value relations, wrapping coordinates
+    gen_part3(thorough, &mut rng, out);
+    out("oracle_report final".to_string());
 }
 
 
@@ -493,7 +496,148 @@ fn gen_part2(thorough: bool, rng: &mut Rng, out: &mut dyn FnMut(String)) {
             let pos: Vec<usize> = (0..k).map(|_| rng.below(n + 1)).collect(); out(format!("insert {a} {} {}", show_list(&pos), tag_off(&[k], 1000))); out(format!("insert_delete {a} {} {}", show_list(&pos), tag_off(&[k], 1000))); }
         out(format!("repeat {a} 2 none")); out(format!("append {a} i3+1000")); out(format!("append_self {a}"));
     }
-    out("oracle_report final".to_string());
+}
+
+// ------------------------------------------------------------------------------------------------ generator, part 3
+
+/// index requests for a giant lane of `bound` positions: at least two DISTINCT indices in every pattern but the last one
+fn giant_request(rng: &mut Rng, bound: usize, kind: usize) -> Vec<usize> {
+    let near = if bound > (1 << 20) + 1 { 1usize << 20 } else { bound / 2 };
+    match kind % 9 {
+        0 => vec![bound - 1, 0],                                                        // both ends, descending
+        1 => vec![bound / 3 * 2, 3, 10, 3],                                             // unsorted with a repetition
+        2 => distinct(rng, bound, 7),
+        3 => vec![near, near - 1],                                                      // adjacent, around 2^20
+        4 => { let set = distinct(rng, bound, 100); spellings(rng, &set).pop().unwrap() }  // 100 distinct, with repeats, shuffled
+        5 => vec![1, 64, 65, bound - 2],                                                // ascending
+        6 => distinct(rng, bound, 33),
+        7 => { let mut v = distinct(rng, bound, 5); v.sort(); v.reverse(); v }         // descending
+        _ => vec![rng.below(bound)],                                                    // a single index
+    }
+}
+
+fn gen_part3(thorough: bool, rng: &mut Rng, out: &mut dyn FnMut(String)) {
+    out("oracle_report".to_string());
+    let g = |s: &[usize]| format!("iota:{}", show_list(s));
+    let count = |s: &[usize]| s.iter().product::<usize>();
+    // ---- 11. giant requests (2^20 < elements <= 2.2e6) and the ladder below (2^17 .. 2^20: a threshold need not sit at 2^20);
+    // ranks 1-4, first / middle / last axis, extents that are and are not multiples of 64.  Judged by the native reference.
+    let rank4: Vec<Vec<usize>> = vec![vec![3, 5, 7, 10007], vec![64, 4, 64, 65], vec![2, 2, 65537, 4], vec![1, 1, 1048601, 1]];
+    let ladder: Vec<Vec<usize>> = vec![vec![200_003], vec![262_147], vec![512, 1024], vec![524_289], vec![700_001], vec![1_048_575], vec![1_048_576], vec![1_048_577], vec![4, 262_144], vec![16, 65_600]];
+    // 11a. flat delete (the receiver of any rank is ravelled)
+    {
+        let mut shapes: Vec<Vec<usize>> = giant_shapes(); shapes.extend(rank4.iter().cloned());
+        if !thorough { shapes = vec![vec![1 << 20 | 5], vec![2_097_153], vec![1031, 1033], vec![400_001, 3], vec![65, 129, 127], vec![2, 131_073, 4], vec![3, 5, 7, 10007], vec![64, 4, 64, 65]]; }
+        for (q, s) in shapes.iter().enumerate() {
+            for r in 0..(if thorough { 4 } else { 1 }) { let req = giant_request(rng, count(s), q + 3 * r); out(format!("g delete {} {} none", g(s), show_list(&req))); }
+        }
+        for (q, s) in ladder.iter().enumerate() {
+            if !thorough && q % 2 == 1 { continue; }
+            let req = giant_request(rng, count(s), q + 1); out(format!("g delete {} {} none", g(s), show_list(&req)));
+            if thorough { let req = giant_request(rng, count(s), q + 4); out(format!("g delete {} {} none", g(s), show_list(&req))); }
+        }
+        if thorough { let n = (1 << 20) + 77; out(format!("g delete {} {} none", g(&[n]), show_list(&distinct(rng, n, 1000)))); }
+        out(format!("g delete {} 3,{} none", g(&[1 << 20 | 5]), 1 << 20 | 5));             // one index too far: refused
+    }
+    // 11b. delete along an axis: lanes above 2^20 (the per-lane flat delete is then giant itself) and giant arrays with shorter lanes.
+    // The crate's `split` clones the whole array once per lane, so only axes with at most 16 lanes across
+    {
+        let mut plans: Vec<(Vec<usize>, usize)> = vec![(vec![1, 1 << 20 | 5], 1), (vec![1_048_583, 1], 0), (vec![1, 1, 1_048_601, 1], 2),
+            (vec![400_001, 3], 0), (vec![2, 131_073, 4], 1)];
+        if thorough { plans.extend([(vec![2, 1_048_577], 1), (vec![3, 400_001], 1), (vec![2, 2, 65537, 4], 2), (vec![1_048_577, 2], 0), (vec![2, 3, 174_763], 2), (vec![1, 2, 2, 262_147], 3), (vec![262_147, 2, 1, 2], 0), (vec![8, 131_136], 1), (vec![1_048_576, 1], 0), (vec![1, 1_048_577], 1), (vec![1, 700_001, 1], 1)]); }
+        for (q, (s, ax)) in plans.iter().enumerate() {
+            for r in 0..(if thorough { 3 } else { 1 }) { let req = giant_request(rng, s[*ax], q + 1 + 3 * r); out(format!("g delete {} {} {ax}", g(s), show_list(&req))); }
+        }
+        if thorough { out(format!("g delete {} 0,{} 1", g(&[1, 1 << 20 | 5]), 1 << 20 | 5)); }
+    }
+    // 11c. flat insert and the insert / delete round trip
+    {
+        let mut plans: Vec<(Vec<usize>, usize, usize)> = vec![(vec![1 << 20 | 5], 2, 0), (vec![2_097_153], 5, 0), (vec![1031, 1033], 70, 9)];
+        if thorough { plans.extend([(vec![65, 129, 127], 3, 0), (vec![3, 5, 7, 10007], 33, 5), (vec![700_001], 4, 0), (vec![1_048_576], 2, 0), (vec![1_048_577], 2, 0), (vec![2, 3, 174_763], 100, 0)]); }
+        for (s, k, pool) in plans {
+            let n = count(&s);
+            let mut idx: Vec<usize> = if pool > 0 { let pos: Vec<usize> = (0..pool).map(|_| rng.below(n + 1)).collect(); (0..k).map(|_| *rng.pick(&pos)).collect() } else { (0..k).map(|_| rng.below(n + 1)).collect() };
+            if k == 2 { idx = vec![100, 7]; } else { idx[0] = n; idx[1] = 0; }
+            out(format!("g insert {} {} {}", g(&s), show_list(&idx), tag_off(&[k], 5_000_000)));
+            out(format!("g insert_delete {} {} {}", g(&s), show_list(&idx), tag_off(&[k], 5_000_000)));
+            if thorough { out(format!("g insert {} {} i1+5000000", g(&s), show_list(&idx))); out(format!("g insert {} {} {}", g(&s), idx[0], tag_off(&[k], 5_000_000))); }
+        }
+        out(format!("g insert {} {} i1+5000000", g(&[1 << 20 | 5]), (1 << 20 | 5) + 1));      // one position too far: refused
+    }
+    // 11d. append
+    for s in if thorough { vec![vec![1usize << 20 | 5], vec![1031, 1033], vec![2, 131_073, 4], vec![3, 5, 7, 10007], vec![1_048_576], vec![524_289]] } else { vec![vec![1usize << 20 | 5], vec![1031, 1033]] } {
+        out(format!("g append {} i3+5000000", g(&s)));
+        if count(&s) <= 1_100_000 { out(format!("g append_self {}", g(&s))); }
+    }
+    // 11e. flat repeat: one count, and one count per position of the last axis
+    {
+        let mut plans: Vec<(Vec<usize>, Vec<usize>)> = vec![(vec![1 << 20 | 5], vec![2]), (vec![2, 131_073, 4], vec![1, 2, 0, 1])];
+        if thorough { plans.extend([(vec![400_001, 3], vec![1, 0, 2]), (vec![2_097_153], vec![1]), (vec![2, 2, 65537, 4], vec![0, 3, 1, 0]), (vec![1031, 1033], vec![2]), (vec![5, 70_000, 4], vec![2, 0, 0, 1]), (vec![64, 4, 64, 65], vec![1]), (vec![524_289], vec![3]), (vec![1_048_576], vec![2]), (vec![1_048_577], vec![0])]); }
+        for (s, c) in plans { out(format!("g repeat {} {} none", g(&s), show_list(&c))); }
+    }
+    // 11f. repeat along an axis (the crate splits into one part per axis position and clones the array for each: axes up to 16 long)
+    {
+        let mut plans: Vec<(Vec<usize>, usize, Vec<usize>)> = vec![(vec![3, 400_001], 0, vec![1, 0, 2]), (vec![2, 2, 65537, 4], 1, vec![2, 1]), (vec![2, 131_073, 4], 2, vec![1, 2, 0, 1])];
+        if thorough { plans.extend([(vec![400_001, 3], 1, vec![2, 1, 0]), (vec![2, 131_073, 4], 0, vec![2, 1]), (vec![5, 70_000, 4], 0, vec![1, 0, 2, 1, 1]), (vec![5, 70_000, 4], 2, vec![0, 1, 2, 1]), (vec![2, 3, 174_763], 1, vec![1, 2, 1]), (vec![2, 3, 174_763], 0, vec![2]),
+            (vec![2, 2, 65537, 4], 0, vec![1, 2]), (vec![2, 2, 65537, 4], 3, vec![1, 1, 0, 2]), (vec![64, 4, 64, 65], 1, vec![1, 0, 2, 1]), (vec![1, 1 << 20 | 5], 0, vec![2]), (vec![1_048_583, 1], 1, vec![2]), (vec![16, 65_600], 0, vec![1; 16]), (vec![4, 262_144], 0, vec![1, 0, 1, 2])]); }
+        for (s, ax, c) in plans { out(format!("g repeat {} {} {ax}", g(&s), show_list(&c))); }
+    }
+    // 11g. trim_zeros
+    for l in if thorough { vec!["zpad:1048581,300000,200000".to_string(), "zpad:2097153,5,0".into(), "zpad:1048577,0,1".into(), "zpad:1048576,1048570,3".into(), "zpad:524289,1,524280".into(), g(&[1_048_577]), g(&[2, 524_289])] } else { vec!["zpad:1048581,300000,200000".to_string(), g(&[1_048_577])] } {
+        out(format!("g trim {l}"));
+    }
+
+    // ---- 13. values related in a way random data never is (trim_zeros is the only value-dependent operation; the structural
+    // operations additionally run on an all-zero f64 image with +0.0 / -0.0 by parity and on long-stem strings, see exec)
+    for len in [2usize, 3, 8, 31, 32, 33, 64, 65, 1024, 1025, 4100] {
+        for r in 0..(if thorough { 4 } else { 2 }) {
+            // all elements == 0 but not bit-identical (+0.0 / -0.0 mixed): everything goes
+            let codes: Vec<usize> = (0..len).map(|_| rng.below(2)).collect(); out(trimc_line(&codes));
+            // … and with one non-zero somewhere (first, last, interior)
+            let mut c2 = codes.clone(); let at = match r { 0 => rng.below(len), 1 => 0, 2 => len - 1, _ => len / 2 }; c2[at] = 5; out(trimc_line(&c2));
+        }
+        let alt: Vec<usize> = (0..len).map(|i| i % 2).collect(); out(trimc_line(&alt));
+    }
+    // a constant lane: all elements equal (nothing to trim unless the constant is a zero)
+    for code in [0usize, 1, 5, 6, 7, 10, 11, 12] { for len in [1usize, 2, 3, 7, 8, 64, 65, 300] { if len <= 8 || thorough || code >= 5 { out(trimc_line(&vec![code; len])); } } }
+    // constant / paired receivers for the structural operations (a shortcut keyed on equal values, a value-based position lookup)
+    for lit in ["6:5,5,5,5,5,5", "2,3:5,5,5,5,5,5", "6:0,0,0,0,0,0", "8:1,1,2,2,1,1,2,2", "2,2,2:3,3,3,3,3,3,3,3", "3,2:0,0,0,0,0,0", "7:0,0,4,4,4,0,0"] {
+        let (s, e) = parse_arr_raw(lit); let nd = s.len(); let n = e.len();
+        for ax in 0..nd {
+            for sub in subsets(s[ax]) { out(format!("delete {lit} {} {ax}", show_list(&sub))); }
+            if s[ax] <= 3 { for c in boxes(&vec![3; s[ax]]) { out(format!("repeat {lit} {} {ax}", show_list(&c))); } }
+            else { for _ in 0..12 { let c: Vec<usize> = (0..s[ax]).map(|_| rng.below(3)).collect(); out(format!("repeat {lit} {} {ax}", show_list(&c))); } }
+        }
+        for sub in subsets(n) { if sub.len() <= 3 || sub.len() + 1 >= n || thorough { out(format!("delete {lit} {} none", show_list(&sub))); } }
+        for p in 0..=n { for v in [e[0], 9] { out(format!("insert {lit} {p} 1:{v}")); out(format!("insert_delete {lit} {p},{} 2:{v},{v}", n - p)); } }
+        out(format!("append {lit} 3:{0},{0},{0}", e[0])); out(format!("append_self {lit}")); out(format!("append {lit} {}", lit.replace("2,3:", "6:").replace("2,2,2:", "8:").replace("3,2:", "6:")));
+        for c in 0..=3 { out(format!("repeat {lit} {c} none")); }
+        out(format!("repeat {lit} {} none", show_list(&(0..*s.last().unwrap()).map(|q| q % 3).collect::<Vec<_>>())));
+        out(format!("trim {lit}"));
+    }
+
+    // ---- 15. huge indices whose product with a stride (or with the element size) wraps modulo 2^64 back into range: must be refused
+    for s in [vec![5usize], vec![300], vec![2, 3], vec![3, 4, 2], vec![4, 4, 4], vec![3, 5, 7], vec![2, 2, 2, 16]] {
+        let a = tag(&s); let nd = s.len();
+        let mut wraps: Vec<(Option<usize>, usize)> = vec![];
+        let wrap = |k: u128, st: u128, c: u128| -> Option<usize> { let v = (k << 64).div_ceil(st) + c; if v < (1u128 << 64) { Some(v as usize) } else { None } };
+        for ax in 0..nd {
+            let st: usize = s[ax + 1..].iter().product();
+            let strides: Vec<usize> = if st > 1 { vec![st, st * 8] } else { vec![8, 4, 16, 12, 3, 2] };
+            for st in strides { for k in [1usize, 2, st - 1] { if k < st { for c in [0usize, 1, s[ax] - 1] { if let Some(v) = wrap(k as u128, st as u128, c as u128) { wraps.push((Some(ax), v)); } } } } }
+        }
+        for st in [8usize, 4, 2, 16, 12, 3, 24] { for k in [1usize, st - 1] { for c in [0usize, 1] { if let Some(v) = wrap(k as u128, st as u128, c as u128) { wraps.push((None, v)); } } } }
+        wraps.push((None, usize::MAX)); wraps.push((None, usize::MAX - 1)); wraps.push((None, 1usize << 63)); wraps.push((Some(0), usize::MAX)); wraps.push((Some(nd - 1), (1usize << 63) + 1));
+        wraps.sort(); wraps.dedup();
+        for (ax, v) in wraps {
+            match ax {
+                Some(ax) => { out(format!("delete {a} {v} {ax}")); out(format!("delete {a} 0,{v} {ax}")); out(format!("repeat {a} 2 {v}")); out(format!("delete {a} 0 {v}")); }
+                None => { out(format!("delete {a} {v} none")); out(format!("delete {a} {v},0 none")); out(format!("insert {a} {v} i1+100")); out(format!("insert {a} 0,{v} i2+100")); out(format!("insert_delete {a} {v} i1+100")); }
+            }
+        }
+        // the refused index directly followed by the index it would alias
+        out(seq(&[format!("delete {a} {} none", (1usize << 61) + 1), format!("delete {a} 1 none"), format!("insert {a} {} i1+100", (1usize << 62) + 1), format!("insert {a} 1 i1+100"), format!("delete {a} {} 0", (1usize << 63) + 1), format!("delete {a} 1 0")]));
+    }
 }
 
 // ------------------------------------------------------------------------------------------------ executor
@@ -503,9 +647,10 @@ fn mk<T: ArrayElement>(s: &str, of: &dyn Fn(i64) -> T) -> Array<T> {
     Array::new(e.into_iter().map(of).collect(), sh).expect("harness: malformed array literal in case line")
 }
 
-/// one real call on element type `T`; `chained` = on `Ok(array)` through the `Result` receiver
-fn call<T: ArrayElement>(op: &str, args: &[&str], chained: bool, of: &dyn Fn(i64) -> T) -> Option<R<T>> {
-    let a = mk(args[0], of);
+/// one real call on element type `T`; `chained` = on `Ok(array)` through the `Result` receiver.  `src` = the receiver's shape and
+/// tags when the case line only NAMES the array (`iota:…`, giant cases), otherwise the receiver is parsed from `args[0]`
+fn call<T: ArrayElement>(op: &str, args: &[&str], chained: bool, of: &dyn Fn(i64) -> T, src: Option<&Val>) -> Option<R<T>> {
+    let a = match src { Some((sh, e)) => Array::new(e.iter().map(|&t| of(t)).collect(), sh.clone()).expect("harness: giant array"), None => mk(args[0], of) };
     let ra: R<T> = Ok(a.clone());
     Some(match op {
         "delete" => { let idx = parse_usize_list(args[1]); let ax: Option<usize> = parse_opt(args[2]);
@@ -526,8 +671,9 @@ fn call<T: ArrayElement>(op: &str, args: &[&str], chained: bool, of: &dyn Fn(i64
 }
 
 enum Out<T: ArrayElement> { Panic, Val(R<T>) }
-fn attempt<T: ArrayElement>(op: &str, args: &[&str], chained: bool, of: &dyn Fn(i64) -> T) -> Option<Out<T>> {
-    match catch_unwind(AssertUnwindSafe(|| call(op, args, chained, of))) { Ok(Some(r)) => Some(Out::Val(r)), Ok(None) => None, Err(_) => Some(Out::Panic) }
+fn attempt<T: ArrayElement>(op: &str, args: &[&str], chained: bool, of: &dyn Fn(i64) -> T) -> Option<Out<T>> { attempt_on(op, args, chained, of, None) }
+fn attempt_on<T: ArrayElement>(op: &str, args: &[&str], chained: bool, of: &dyn Fn(i64) -> T, src: Option<&Val>) -> Option<Out<T>> {
+    match catch_unwind(AssertUnwindSafe(|| call(op, args, chained, of, src))) { Ok(Some(r)) => Some(Out::Val(r)), Ok(None) => None, Err(_) => Some(Out::Panic) }
 }
 fn out_text<T: ArrayElement>(o: &Out<T>) -> String { match o { Out::Panic => "panic".into(), Out::Val(r) => truncate(&res_arr(r), 200) } }
 
@@ -549,7 +695,10 @@ fn image_diff<T: ArrayElement>(canon: &Out<i64>, img: &Out<T>, of: &dyn Fn(i64) 
 
 /// run both receivers on the image type; the first divergence from the canonical i64 run as text
 fn images<T: ArrayElement>(canon: &Out<i64>, op: &str, args: &[&str], name: &str, of: &dyn Fn(i64) -> T, same: fn(&T, &T) -> bool) -> Option<Result<(), String>> {
-    for chained in [false, true] {
+    images_on(canon, op, args, name, of, same, &[false, true])
+}
+fn images_on<T: ArrayElement>(canon: &Out<i64>, op: &str, args: &[&str], name: &str, of: &dyn Fn(i64) -> T, same: fn(&T, &T) -> bool, receivers: &[bool]) -> Option<Result<(), String>> {
+    for &chained in receivers {
         let o = attempt(op, args, chained, of)?;
         if let Some(d) = image_diff(canon, &o, of, same) {
             let kind = if chained { "RECEIVER-DIVERGENCE" } else { "TYPE-DIVERGENCE" };
@@ -576,6 +725,15 @@ fn run_structural(op: &str, args: &[&str], lite: bool) -> Option<String> {
     // huge cases: the u8 image only (both receivers)
     if lite {
         if value_dep { img!("u8", |t: i64| if t == 0 { 0u8 } else { 255 - ((t - 1).rem_euclid(255)) as u8 }, eq); } else { img!("u8", tag_u8, eq); }
+        // part 3: one odd layout per huge case as well (12 / 3 / 6 bytes in turn, plain or Result receiver in turn)
+        let b = args.iter().map(|a| a.len()).sum::<usize>();
+        let recv: &[bool] = if (b / 3) % 2 == 0 { &[false] } else { &[true] };
+        let r = match b % 3 {
+            0 => images_on(&canon, op, args, "Tuple3<i32,i32,i32> (12 bytes)", &zero_or(tag_t3), eq, recv)?,
+            1 => images_on(&canon, op, args, "Tuple3<u8,u8,u8> (3 bytes)", &zero_or(tag_t3b), eq, recv)?,
+            _ => images_on(&canon, op, args, "Tuple3<i16,i16,i16> (6 bytes)", &zero_or(tag_t6), eq, recv)?,
+        };
+        if let Err(d) = r { return Some(d.replacen("TYPE-DIVERGENCE", "LAYOUT-DIVERGENCE", 1)); }
         return Some(text);
     }
     if value_dep {
@@ -591,8 +749,64 @@ fn run_structural(op: &str, args: &[&str], lite: bool) -> Option<String> {
     img!("f64 (tag 0 = -0.0)", tag_f64z, bits64);
     img!("f32 (tag 0 = -0.0)", |t: i64| if t == 0 { -0.0f32 } else { t as f32 }, bits32);
     img!("String", |t: i64| t.to_string(), eq);
+    // ---- part 3, class (12): element LAYOUT.  12-, 3-, 6-byte tuples (64 / size_of is not a power of two), the 32-byte non-Copy
+    // Tuple2<String,i32> and a 40-byte tuple (size_of > 24): all five on every case of the small scope (receiver up to 100 elements,
+    // case line up to 200 bytes) with the plain receiver, one of them in turn also through the Result receiver; on the larger cases one
+    // layout and one receiver per case, in turn.
+    // For the operations whose only array argument is the receiver the plain call goes through lib's `on_layouts_arr!`
+    // in the small scope (its i64 answer must be the canonical text), the Result receiver through the image machinery of this bin; the operations
+    // that take a second array of the same element type, and the value-dependent `trim`, use the image machinery for both receivers.
+    let bytes = args.iter().map(|a| a.len()).sum::<usize>();
+    let small = elems_of(args[0]) <= 100 && bytes <= 200;
+    // small scope: the plain receiver on all five layouts, the Result receiver on one of them in turn; beyond the small scope ONE
+    // layout per case, in turn, on the plain or the Result receiver in turn (the exec budget of the quick tier)
+    let rot = bytes % 5;
+    let via_macro = small && matches!(op, "delete" | "repeat" | "append_self" | "insert_self");
+    if via_macro {
+        let lt = on_layouts_arr!(args[0], |a| layout_call(&a, op, args));
+        if lt != text { return Some(if lt.starts_with("LAYOUT-DIVERGENCE") { truncate(&lt, 1500) } else { format!("LAYOUT-DIVERGENCE the i64 run inside on_layouts_arr! answers `{}`", truncate(&lt, 300)) }); }
+    }
+    let recv_for = |k: usize, in_macro: bool| -> &'static [bool] {
+        match (small, rot == k, via_macro && in_macro) {
+            (true, true, false) => &[false, true], (true, true, true) => &[true], (true, false, false) => &[false],
+            (false, true, _) => if (bytes / 5) % 2 == 0 { &[false] } else { &[true] },
+            _ => &[] }
+    };
+    macro_rules! lay { ($k:expr, $in_macro:expr, $name:expr, $of:expr) => { if let Err(d) = images_on(&canon, op, args, $name, &$of, eq, recv_for($k, $in_macro))? { return Some(d.replacen("TYPE-DIVERGENCE", "LAYOUT-DIVERGENCE", 1)); } } }
+    if value_dep {
+        lay!(0, true, "Tuple3<i32,i32,i32> (12 bytes)", zero_or(tag_t3)); lay!(1, true, "Tuple3<u8,u8,u8> (3 bytes)", zero_or(tag_t3b)); lay!(2, true, "Tuple2<String,i32> (32 bytes, not Copy)", zero_or(tag_tw));
+        lay!(3, false, "Tuple3<i16,i16,i16> (6 bytes)", zero_or(tag_t6)); lay!(4, false, "Tuple2<Tuple3<i64,i64,i64>,Tuple2<i64,i64>> (40 bytes)", zero_or(tag_t40));
+    } else {
+        lay!(0, true, "Tuple3<i32,i32,i32> (12 bytes)", tag_t3); lay!(1, true, "Tuple3<u8,u8,u8> (3 bytes)", tag_t3b); lay!(2, true, "Tuple2<String,i32> (32 bytes, not Copy)", tag_tw);
+        // the two layouts lib.rs does not have
+        lay!(3, false, "Tuple3<i16,i16,i16> (6 bytes)", tag_t6); lay!(4, false, "Tuple2<Tuple3<i64,i64,i64>,Tuple2<i64,i64>> (40 bytes)", tag_t40);
+        // ---- part 3, class (13): values related in a way random data never is.  All elements `==` but not bit-identical
+        // (+0.0 at even tags, -0.0 at odd tags; compared bit-wise), and strings sharing a stem of 40 bytes before the first difference
+        if small || bytes % 4 == 0 {
+            let recv: &[bool] = if bytes % 4 != 0 || !small { &[false] } else { &[false, true] };
+            if let Err(d) = images_on(&canon, op, args, "f64 all-zero (+0.0 / -0.0 by tag parity: all elements ==, none identical to its neighbour)", &|t: i64| if t & 1 == 0 { 0.0f64 } else { -0.0f64 }, bits64, recv)? { return Some(d); }
+        }
+        if bytes % 4 == 1 { if let Err(d) = images_on(&canon, op, args, "String with a common stem of 40 bytes", &|t: i64| format!("{:0>48}", t), eq, if small { &[false, true] } else { &[false] })? { return Some(d); } }
+    }
     Some(text)
 }
+
+/// the plain call of an operation whose only array argument is the receiver, generic in the element type (for `on_layouts_arr!`)
+fn layout_call<T: ArrayElement>(a: &Array<T>, op: &str, args: &[&str]) -> R<T> {
+    match op {
+        "delete" => a.delete(&parse_usize_list(args[1]), parse_opt(args[2])),
+        "repeat" => a.repeat(&parse_usize_list(args[1]), parse_opt(args[2])),
+        "append_self" => a.append(a, None),
+        "insert_self" => a.insert(&parse_usize_list(args[1]), a, None),
+        _ => Err(ArrayError::NotImplemented),
+    }
+}
+type T6 = Tuple3<i16, i16, i16>;
+type T40 = Tuple2<Tuple3<i64, i64, i64>, Tuple2<i64, i64>>;
+fn tag_t6(t: i64) -> T6 { Tuple3(t as i16, (t >> 3) as i16, !(t as i16)) }
+fn tag_t40(t: i64) -> T40 { Tuple2(Tuple3(t, -t, t ^ 0x5555), Tuple2(t.wrapping_mul(3), 7 - t)) }
+/// for the value-dependent `trim_zeros`: tag 0 is the zero of the type, every other tag a non-zero
+fn zero_or<T: ArrayElement>(f: fn(i64) -> T) -> impl Fn(i64) -> T { move |t| if t == 0 { T::zero() } else { f(t) } }
 
 // ---- trimc: value classes
 
@@ -691,6 +905,11 @@ fn insert_ref(e: &[i64], idx: &[usize], vals: &[i64]) -> Option<Vec<i64>> {
 /// of rank other than 1, …: judged by the model only); `Some(None)` = the call must be refused.
 fn oracle(op: &str, args: &[&str]) -> Option<Option<Val>> {
     let (shape, e) = parse_arr_raw(args.first()?);
+    oracle_on(op, shape, e, args)
+}
+/// the same reference on a receiver that is already built (`args[0]` is not read): the giant cases of part 3 are judged by the very
+/// code that is compared with the model on the ordinary cases
+fn oracle_on(op: &str, shape: Vec<usize>, e: Vec<i64>, args: &[&str]) -> Option<Option<Val>> {
     let nd = shape.len(); let n = e.len();
     if n == 0 || nd == 0 || shape.iter().product::<usize>() != n { return None; }
     Some(match op {
@@ -742,7 +961,10 @@ fn diff_detail(obs: &str, want: &str) -> String {
     }
 }
 
-fn elems_of(s: &str) -> usize { let body = s.strip_prefix('i').unwrap_or(s); let sh = body.split(|c| c == '+' || c == ':').next().unwrap_or("-"); parse_usize_list(sh).iter().product() }
+fn elems_of(s: &str) -> usize {
+    if let Some(sh) = s.strip_prefix("iota:") { return parse_usize_list(sh).iter().product(); }
+    if let Some(b) = s.strip_prefix("zpad:") { return parse_usize_list(b).first().copied().unwrap_or(0); }
+    let body = s.strip_prefix('i').unwrap_or(s); let sh = body.split(|c| c == '+' || c == ':').next().unwrap_or("-"); parse_usize_list(sh).iter().product() }
 fn is_structural(op: &str) -> bool { matches!(op, "delete" | "insert" | "insert_delete" | "append" | "repeat" | "trim" | "append_self" | "insert_self") }
 /// huge cases run on i64 (both receivers) and the u8 image only
 fn is_huge(args: &[&str]) -> bool { args.iter().map(|a| a.len()).sum::<usize>() > 60_000 || args.first().map_or(0, |a| elems_of(a)) > 20_000 }
@@ -776,6 +998,57 @@ fn exec_native(args: &[&str], expected: &str) -> Option<Verdict> {
     Some(Verdict::Mismatch { detail: format!("differs from the harness-native index reference: {}; reference `{}`", diff_detail(&obs, &want), truncate(&want, 300)), observed: truncate(&obs, 1500) })
 }
 
+// ---- part 3: giant requests (class 11)
+
+static GIANT_CALLS: AtomicUsize = AtomicUsize::new(0);
+
+/// `iota:<shape>` = the tags 0, 1, 2, … in row-major order; `zpad:<n>,<l>,<r>` = a lane of n elements with l zeros in front, r zeros
+/// at the end, non-zero border elements and a zero at every 7th interior position (for `trim_zeros`)
+fn giant_src(spec: &str) -> Option<Val> {
+    if let Some(sh) = spec.strip_prefix("iota:") { let shape = parse_usize_list(sh); let n: usize = shape.iter().product(); return Some((shape, (0..n as i64).collect())); }
+    let v = parse_usize_list(spec.strip_prefix("zpad:")?);
+    let (n, l, r) = (*v.first()?, *v.get(1)?, *v.get(2)?);
+    if l + r + 2 > n { return None; }
+    Some((vec![n], (0..n).map(|k| if k < l || k >= n - r { 0 } else if k % 7 == 3 && k != l && k != n - r - 1 { 0 } else { k as i64 + 1 }).collect()))
+}
+fn brief<T: ArrayElement>(o: &Out<T>) -> String {
+    match o { Out::Panic => "panic".into(), Out::Val(Err(e)) => format!("err {}", err_name(e)), Out::Val(Ok(a)) => format!("ok <shape {}, {} elements>", show_list(&a.get_shape().unwrap()), a.get_elements().unwrap().len()) }
+}
+
+/// `g call…`: the driver answers `ok native`; the crate's answer is compared IN PLACE (never printed) with the native reference,
+/// on `Array<i64>` and on one further element type (u8 / 12-byte / 3-byte / 6-byte tuple / f64 with -0.0, in turn; plain or Result
+/// receiver in turn).  Only the first differing flat position is reported.
+fn exec_giant(args: &[&str], expected: &str) -> Option<Verdict> {
+    if expected != "ok native" { return Some(compare_default("harness: a `g` line expects the driver to answer `ok native`".into(), expected)); }
+    let (op, rest) = (*args.first()?, &args[1..]);
+    if !is_structural(op) { return None; }
+    let src = giant_src(rest.first()?)?;
+    let want = oracle_on(op, src.0.clone(), src.1.clone(), rest)?;      // `g` lines are only generated where the reference has an opinion
+    GIANT_CALLS.fetch_add(1, Ordering::Relaxed);
+    let shown = match &want { Some((sh, e)) => format!("ok native (giant: reference result has shape {} = {} elements, compared in place)", show_list(sh), e.len()), None => "ok native (giant: the reference refuses the call)".to_string() };
+    let canon: Out<i64> = Out::Val(match want { Some((sh, e)) => Array::new(e, sh), None => Err(ArrayError::NotImplemented) });
+    let value_dep = op == "trim";
+    let key = args.iter().map(|a| a.len()).sum::<usize>() + src.1.len();
+    // two runs per giant case: the plain call on Array<i64>, then one further element type, through the Result receiver for every
+    // other case (the quick tier has ~10 s for all giant cases together)
+    macro_rules! ty { ($name:expr, $of:expr, $same:expr, $recv:expr) => { for chained in $recv {
+        let o = attempt_on(op, rest, chained, &$of, Some(&src))?;
+        if let Some(d) = image_diff(&canon, &o, &$of, $same) {
+            return Some(Verdict::Mismatch { observed: brief(&o), detail: format!("differs from the harness-native index reference (element type {}, {} receiver): {d}; the reference expects {}", $name, if chained { "Result" } else { "plain" }, brief(&canon)) });
+        }
+    } } }
+    let second = [(key / 5) % 2 == 1];
+    ty!("i64", |t: i64| t, eq, [false]);
+    match key % 5 {
+        0 => { if value_dep { ty!("u8", |t: i64| if t == 0 { 0u8 } else { 255 - ((t - 1).rem_euclid(255)) as u8 }, eq, second); } else { ty!("u8", tag_u8, eq, second); } }
+        1 => ty!("Tuple3<i32,i32,i32> (12 bytes)", zero_or(tag_t3), eq, second),
+        2 => ty!("Tuple3<u8,u8,u8> (3 bytes)", zero_or(tag_t3b), eq, second),
+        3 => ty!("Tuple3<i16,i16,i16> (6 bytes)", zero_or(tag_t6), eq, second),
+        _ => ty!("f64 (tag 0 = -0.0)", tag_f64z, bits64, second),
+    }
+    Some(Verdict::Match(shown))
+}
+
 thread_local! { static PREV: std::cell::RefCell<Option<(String, Vec<String>, String)>> = const { std::cell::RefCell::new(None) }; }
 /// only the plain call on `Array<i64>` (the A–B–A re-run)
 fn plain_i64(op: &str, args: &[&str]) -> Option<String> { match attempt(op, args, false, &|t| t)? { Out::Panic => Some("panic".into()), Out::Val(r) => Some(res_arr(&r)) } }
@@ -791,15 +1064,16 @@ fn exec(op: &str, args: &[&str], expected: &str) -> Option<Verdict> {
 fn exec_line(op: &str, args: &[&str], expected: &str) -> Option<Verdict> {
     match op {
         "oracle_report" => {
-            let text = format!("ok report: so far the harness-native reference agreed with the full model answer on {} cases (no opinion on {}), {} huge calls judged by the reference only, {} calls inside seq lines, {} implicit A-B-A re-runs",
-                ORACLE_CHECKED.load(Ordering::Relaxed), ORACLE_SILENT.load(Ordering::Relaxed), ORACLE_ONLY.load(Ordering::Relaxed), SEQ_CALLS.load(Ordering::Relaxed), ABA_RERUNS.load(Ordering::Relaxed));
+            let text = format!("ok report: so far the harness-native reference agreed with the full model answer on {} cases (no opinion on {}), {} huge and {} giant calls judged by the reference only, {} calls inside seq lines, {} implicit A-B-A re-runs",
+                ORACLE_CHECKED.load(Ordering::Relaxed), ORACLE_SILENT.load(Ordering::Relaxed), ORACLE_ONLY.load(Ordering::Relaxed), GIANT_CALLS.load(Ordering::Relaxed), SEQ_CALLS.load(Ordering::Relaxed), ABA_RERUNS.load(Ordering::Relaxed));
             if expected != "ok report" { return Some(compare_default(text, expected)); }
-            if args.first() == Some(&"final") && ORACLE_ONLY.load(Ordering::Relaxed) > 0 && ORACLE_CHECKED.load(Ordering::Relaxed) < 1000 {
+            if args.first() == Some(&"final") && ORACLE_ONLY.load(Ordering::Relaxed) + GIANT_CALLS.load(Ordering::Relaxed) > 0 && ORACLE_CHECKED.load(Ordering::Relaxed) < 1000 {
                 return Some(Verdict::Mismatch { observed: text, detail: "the native reference was relied upon without having been compared with the model on at least 1000 cases of this run".into() });
             }
             Some(Verdict::Match(text))
         }
         "n" => exec_native(args, expected),
+        "g" => exec_giant(args, expected),
         "seq" => {
             let calls: Vec<&[&str]> = args.split(|t| *t == "/").collect();
             let exps: Vec<&str> = expected.split(" / ").collect();
@@ -840,7 +1114,7 @@ fn nontrivial(op: &str, args: &[&str]) -> bool {
     match op {
         "oracle_report" => return false,
         "seq" => return args.split(|t| *t == "/").any(|c| !c.is_empty() && nontrivial(c[0], &c[1..])),
-        "n" => return args.len() >= 2 && nontrivial(args[0], &args[1..]),
+        "n" | "g" => return args.len() >= 2 && nontrivial(args[0], &args[1..]),
         _ => {}
     }
     let n = elems_of(args[0]);
